@@ -3903,7 +3903,8 @@ const hawk_ooch_t* hawk_sed_setcompidwithbcstr (hawk_sed_t* sed, const hawk_bch_
 #else
 	hawk_conv_bcstr_to_ucstr_with_cmgr(id, &tmplen, HAWK_NULL, &len, hawk_sed_getcmgr(sed), 1);
 #endif
-	cid = hawk_sed_allocmem(sed, HAWK_SIZEOF(*cid) + ((len + 1) * HAWK_SIZEOF(*id)));
+	/* the identifier is stored as hawk_ooch_t. don't size it by the type of 'id' */
+	cid = hawk_sed_allocmem(sed, HAWK_SIZEOF(*cid) + ((len + 1) * HAWK_SIZEOF(hawk_ooch_t)));
 	if (cid == HAWK_NULL)
 	{
 		/* mark that an error has occurred */
@@ -3915,6 +3916,7 @@ const hawk_ooch_t* hawk_sed_setcompidwithbcstr (hawk_sed_t* sed, const hawk_bch_
 #if defined(HAWK_OOCH_IS_BCH)
 		hawk_copy_oocstr_unlimited ((hawk_ooch_t*)(cid + 1), id);
 #else
+		len++; /* room for the terminating null */
 		hawk_conv_bcstr_to_ucstr_with_cmgr(id, &tmplen, (hawk_ooch_t*)(cid + 1), &len, hawk_sed_getcmgr(sed), 1);
 #endif
 	}
